@@ -350,6 +350,10 @@ func (r *Run) replay(it *OblResult, dir string, base string) (*ReplayOutcome, bo
 	sub := *it.Obl
 	if it.Res.FailedConjunct != "" {
 		sub.Cond = T{it.Res.FailedConjunct, SBool}
+		sub.Subs = nil
+		if it.Res.FailedPath != "" {
+			sub.Path = T{it.Res.FailedPath, SBool}
+		}
 	}
 	q := "(set-option :produce-models true)\n(set-logic ALL)\n" + it.Enc.Query(&sub) + "(get-value (" + strings.Join(terms, " ") + "))\n"
 	qf := filepath.Join(r.scratch, base+"_gv.smt2")
